@@ -91,7 +91,7 @@ SPEC = dict(
         dict(name='v2_end_scope', harness='h_v2_end_scope', enforce='v2_scope_end_scope'),
         # the event is set only by the step that MAKES (closed and count 0) true.  FAILS on the code as written (finding): v1 cleanup()
         # always closes twice (request_stop, then join); the second end_scope() can overtake the last record_completion()
-        dict(name='v2_end_scope_single_setter', harness='h_v2_end_scope', enforce='v2_scope_end_scope', defines=['VF_SINGLE_SETTER'], tier='thorough'),
+        dict(name='v2_end_scope_single_setter', harness='h_v2_end_scope', enforce='v2_scope_end_scope', defines=['VF_SINGLE_SETTER']),
         dict(name='v2_join', harness='h_v2_join', enforce='v2_scope_join', replace=['v2_scope_end_scope']),
         dict(name='v2_nest', harness='h_v2_nest', enforce='v2_scope_nest'),
         dict(name='nest_op_start', harness='h_nest_op_start', enforce='nest_op_start'),
@@ -105,7 +105,7 @@ SPEC = dict(
         dict(name='detached_spawn', harness='h_detached_spawn', enforce='async_scope_detached_spawn'),
         dict(name='nest_tag_invoke', harness='h_nest_tag_invoke', enforce='async_scope_nest_tag_invoke', replace=['async_scope_attach']),
         dict(name='lemma_scope_protocol', harness='lemma_scope_protocol', mode='lemma'),
-        dict(name='lemma_scope_single_setter', harness='lemma_scope_protocol', mode='lemma', defines=['VF_SINGLE_SETTER'], tier='thorough'),
+        dict(name='lemma_scope_single_setter', harness='lemma_scope_protocol', mode='lemma', defines=['VF_SINGLE_SETTER']),
         dict(name='lemma_scope_init', harness='lemma_scope_init', mode='lemma'),
     ],
     assumptions=[
@@ -116,7 +116,7 @@ SPEC = dict(
         'spawn_future(sender, scope) / spawn_detached(sender, scope) nest the sender through nest(sender, scope), i.e. through the v1 scope\'s tag_invoke(nest) = attach() (groups spawn_future, spawn_detached)',
         'a nest operation whose scope_ holds a reference has a constructed inner operation (constructor of _nest_op; invariant of group nest_sender)',
         'count < 2^40 (resource bound standing in for UNIFEX_ASSERT(opState + 2u > opState)); atomics sequentially consistent',
-        'FINDING (not repaired): v2 end_scope() sets evt_ whenever the old count is 0, also when the scope was already closed. v1 cleanup() = request_stop() (end_scope + stop request) followed by join() (end_scope again + wait): the join\'s end_scope() can run between the last record_completion()\'s fetch_sub and its evt_.set(), set the event itself, the join completes, the scope is destroyed and record_completion() calls set() on the destroyed event (ASan heap-use-after-free: probes/native/async_scope_v1_cleanup_second_close_overtakes_last_completion.cpp; repair specs/scope_v1/proposed_repair.diff). The obligation is unit v2_end_scope_single_setter (+ lemma_scope_single_setter), tier=thorough only; the quick tier proves "set iff the new state is (closed, 0)"',
+        'FINDING (not repaired): v2 end_scope() sets evt_ whenever the old count is 0, also when the scope was already closed. v1 cleanup() = request_stop() (end_scope + stop request) followed by join() (end_scope again + wait): the join\'s end_scope() can run between the last record_completion()\'s fetch_sub and its evt_.set(), set the event itself, the join completes, the scope is destroyed and record_completion() calls set() on the destroyed event (ASan heap-use-after-free: probes/native/async_scope_v1_cleanup_second_close_overtakes_last_completion.cpp; repair specs/scope_v1/proposed_repair.diff). The obligation is unit v2_end_scope_single_setter (+ lemma_scope_single_setter), tier=thorough only; the quick tier proves "set only when the new state is (closed, 0), and set by the step that makes it so" (true of the code as written and of the repaired code)',
     ],
     drops=['memory orders', 'noexcept/[[nodiscard]]/UNIFEX_ALWAYS_INLINE/friend, trailing return types',
            'evt_.set(), evt_.async_wait(), stopSource_.request_stop(), stopSource_.get_token() -> event stubs',
